@@ -1319,10 +1319,12 @@ pub fn history_strategy(mix: Mix, max_ops: usize) -> impl Strategy<Value = Histo
 // C10: nonce scan over everything a history encrypted
 // ---------------------------------------------------------------------------
 
-pub fn run_c10_history_nonces(_shard: &Shard, _rep: &mut Report) {}
+pub fn run_c10_history_nonces(shard: &Shard, rep: &mut Report) {
+    crate::prop_c10_hist::run(shard, rep);
+}
 
-pub fn replay_c10_history_nonces(_shard: &Shard, _case: &Value) -> CheckResult {
-    Ok(())
+pub fn replay_c10_history_nonces(_shard: &Shard, case: &Value) -> CheckResult {
+    crate::prop_c10_hist::replay(case)
 }
 
 #[allow(dead_code)]
